@@ -102,7 +102,19 @@ def pdf1_case(draw):
 
 @st.composite
 def pdf2_case(draw):
-    name = draw(st.sampled_from(['biv_lognormal', 'biv_lognormal', 'biv_ind_gamma', 'narrow-asym']))
+    name = draw(st.sampled_from(['biv_lognormal', 'biv_lognormal', 'biv_ind_gamma', 'narrow-asym', 'off-diagonal']))
+    if name == 'off-diagonal':
+        # one population's selection coefficients mostly beyond the lethal end of the cached range, the other's mostly below its
+        # neutral end: mass in the off-diagonal corners (the grid is fitted to the pdf in c2d through want_lo / want_hi)
+        lo, hi = math.exp(draw(st.floats(math.log(1e-3), math.log(0.2)))), math.exp(draw(st.floats(math.log(5.0), math.log(200.0))))
+        # medians stay inside the cached range (see the rejection rule in r2); 10-45% of one marginal lies beyond the lethal end and
+        # 7-45% of the other below the neutral end
+        s1, s2 = draw(st.floats(0.8, 2.0)), draw(st.floats(0.8, 2.0))
+        a = math.log(hi) - draw(st.floats(0.1, 1.2)) * s1
+        b = math.log(lo) + draw(st.floats(0.1, 1.5)) * s2
+        flip = draw(st.booleans())
+        return dict(name='biv_lognormal', params=([b, a, s2, s1] if flip else [a, b, s1, s2]) + [draw(st.floats(-0.9, 0.5))],
+                    want_lo=lo, want_hi_exact=hi)
     if name == 'narrow-asym':
         # concentrated lognormal with different marginals, far from the origin: its density is tiny (but not equal) at small gammas
         mu1 = draw(st.floats(2.0, 5.0))
@@ -219,6 +231,8 @@ def c2d(draw):
     grid = draw(grid_case(max_pts=12))
     if 'want_hi' in pdf:
         grid['hi'] = float(min(2000.0, max(grid['hi'], pdf.pop('want_hi'))))
+    if 'want_lo' in pdf:
+        grid['lo'], grid['hi'] = float(pdf.pop('want_lo')), float(pdf.pop('want_hi_exact'))
     return dict(grid=grid, pdf=pdf, seed=draw(st.integers(0, 2 ** 31 - 1)),
                 n1=draw(st.integers(2, 4)), n2=draw(st.integers(2, 4)), theta=draw(st.floats(0.1, 1e4)),
                 blind=draw(st.sampled_from([False, False, True])), exterior=draw(st.sampled_from([True, True, False])),
